@@ -209,7 +209,8 @@ Section Shortcut.
           pose proof (A1 ch (sim && len_le1 ch) Hr) as H1.
           assert (Hch : forall x, In x ch -> match x with ECompFilter t ch2 => cm1 it t ch2 = Some true
                                                       | EPropFilter _ => True | _ => False end).
-          { intros x Hx. specialize (Hev x Hx). destruct x; try discriminate; auto. }
+          { intros x Hx. specialize (Hev x Hx). destruct x; try discriminate; auto.
+            destruct (tr_bounded (first_child_range ch)); discriminate. }
           specialize (H1 Hch).
           destruct (sp_comp ch (sim && len_le1 ch)) as [[[[[tag s] e] sm]|] sim2]; cbn [fst] in H1.
           * exact H1.
